@@ -18,9 +18,13 @@ import (
 	"time"
 )
 
-const (
-	verifDir = "/verif"
-)
+// verifDir is /verif, or the snapshot the driver runs from (VERIF_DIR is exported by ./check).
+var verifDir = func() string {
+	if d := os.Getenv("VERIF_DIR"); d != "" {
+		return d
+	}
+	return "/verif"
+}()
 
 // Run is the accumulator of one check run (one property, one tier, one seed).
 type Run struct {
